@@ -175,6 +175,17 @@ def clause_routing(prog, rep):
                 m += 1
                 og = A.origins(prog, f, c.args[-1]["p"][0], scope=core, max_frames=4)
                 ok = og.has_call(lambda x: x.name == "decode" and x.krate == "hex") and og.has_call(lambda x: x.name == "content" and last_seg(x.self_adt) == "Tag")
+                if not ok:
+                    # decoded into a buffer the decoder is handed (`hex::decode_to_slice(content, &mut id)`): the key comes out of a
+                    # function that decodes the tag's content that way
+                    for y in og.calls:
+                        for t in prog.call_targets(y):
+                            for q in prog.family(t):
+                                for z in q.live_calls():
+                                    if z.name == "decode_to_slice" and z.krate == "hex" and z.args and "p" in z.args[0]:
+                                        oz = A.origins(prog, q, z.args[0]["p"][0], scope=None, max_frames=0)
+                                        if oz.has_call(lambda x: x.name == "content" and last_seg(x.self_adt) == "Tag"):
+                                            ok = True
                 rep.check(ok, "routing", "incoming/lookup-by-h-tag", "incoming events are matched by the decoded content of their h tag",
                           "the group lookup key does not derive from the event's h tag", c.loc())
     rep.floor("routing", "find_group_by_nostr_group_id sites on the receive path", m, 1)
